@@ -18,6 +18,11 @@
 (*    PM, PM+ : the action drawn by CobaRandom.choicew from the            *)
 (*              SafeLearner's own generator (one uniform per row, rows in  *)
 (*              order, calls in order) with exactly its pmf entry, kwargs  *)
+(* kwargs is the abstract value k: which names it carries and the KIND of   *)
+(* mapping the learner hands it over in (coba.primitives.Kwargs is         *)
+(* Mapping[str,Any]: dict, dict subclass, read-only proxy, UserDict, any   *)
+(* collections.abc.Mapping) are renderings chosen by the driver; the       *)
+(* meaning below does not depend on them.                                  *)
 (* Three consecutive calls are specified (format and layout are latched on *)
 (* the first).  The generator is CobaRandom.tla with the real constants.   *)
 (***************************************************************************)
